@@ -2235,7 +2235,9 @@ class C15(Prop):
     rule = ("rates as small rationals x epsilon in {1e-1 .. 1e-6} x interval lengths such that the mean rate*delta ranges over "
             "[0, 3000] (incl. the hundreds and thousands where the naive evaluation overflowed); the implementation's n is accepted iff "
             "the certified checker of Model/Poisson.v places it in the tolerance band (tau = 1e-9) of the (1-eps) quantile; plus "
-            "monotonicity in delta, 0 at delta = 0 and the mass function against a log-space evaluation; non-trivial = distinct query "
+            "monotonicity in delta, 0 at delta = 0 and the mass function against a log-space evaluation (a non-finite value fails); a quantile-threshold "
+            "stream: for coarse and fine epsilons and k <= 5 the interval lengths on either side of the mean at which the quantile changes from k to k+1 "
+            "(k = 0: sparse processes whose bound is 0); non-trivial = distinct query "
             "with non-zero result")
     proof_status = "real-number specification and checker soundness proved (standard-library real/classical axioms); the f64 program itself is tied by the tolerance-band check only"
     trusted_extra = ["C15: axioms of the standard library's real numbers and Coquelicot: ClassicalDedekindReals.sig_forall_dec, sig_not_dec, FunctionalExtensionality.functional_extensionality_dep, Classical_Prop.classic",
@@ -2262,10 +2264,24 @@ class C15(Prop):
             base = len(qs); tiny.add(base)
             qs += [["poisson_na", rn, rd, en, ed, delta], ["poisson_na", rn, rd, en, ed, delta + rng.randint(1, 5)]]
             meta.append((base, rn, rd, en, ed, delta))
+        # quantile thresholds (round 10, C15-A10): for a coarse or fine epsilon and a small k, the interval lengths on either side of the
+        # mean at which the (1-eps) quantile changes from k to k+1 (k = 0: mean = -ln(1-eps), the sparse processes whose bound is 0)
+        def cdf(k, m): return sum(math.exp(-m + j * math.log(m) - math.lgamma(j + 1)) for j in range(k + 1)) if m > 0 else 1.0
+        for _ in range(ctx.scale(60, 600)):
+            ed = rng.choice([10, 10, 100, 1000]); en = rng.randint(1, 9); eps = en / ed; k = rng.choice([0, 0, 0, 1, 2, 3, 5])
+            lo, hi = 0.0, 60.0
+            for _i in range(80):
+                mid = (lo + hi) / 2
+                if cdf(k, mid) >= 1 - eps: lo = mid
+                else: hi = mid
+            rd = 1000; rn = rng.randint(1, 50); delta = max(1, int(lo * rd / rn))
+            base = len(qs)
+            qs += [["poisson_na", rn, rd, en, ed, delta], ["poisson_na", rn, rd, en, ed, delta + 1]]
+            meta.append((base, rn, rd, en, ed, delta))
         for _ in range(ctx.scale(80, 800)):
             rd = rng.choice([1, 10, 100]); rn = rng.randint(1, 30); delta = rng.randint(0, 600); k = rng.randint(0, 40) + int(rn * delta / rd)
             qs.append(["poisson_pmf", rn, rd, delta, max(0, k - rng.randint(0, 30))]); meta.append(("pmf", len(qs) - 1))
-        for k in (0, 1, 3):         # the degenerate zero-mean process: all mass at k = 0
+        for k in (0, 0, 1, 3):      # the degenerate zero-mean process (empty interval, positive rate): all mass at k = 0
             qs.append(["poisson_pmf", rng.randint(1, 30), rng.choice([1, 10, 100]), 0, k]); meta.append(("pmf", len(qs) - 1))
         rows = ctx.run(qs, model=False)
         # the certified band test on the implementation's answers
@@ -2296,6 +2312,9 @@ class C15(Prop):
         for m in meta:
             if m[0] == "pmf":
                 q, dv, rv, _ = rows[m[1]]
+                if dv and dv[0] == "f" and len(dv) < 4:      # "f nan" / "f inf": a probability must be a finite number (round 10, C15-B10)
+                    ctx.oracle("mass_function", False, "arrival_probability(rate %d/%d, delta %d, k=%d) is not a finite number: %s" % (q[1], q[2], q[3], q[4], dv[1]), [q], cls="oracle:pmf")
+                    continue
                 if not dv or dv[0] != "f" or len(dv) < 4: continue
                 try: val = (-1) ** int(dv[3]) * int(dv[1]) * 2.0 ** int(dv[2])
                 except Exception: continue
